@@ -95,9 +95,21 @@ class AddressType(StringType, prim='address'):
         return f'{self.value[:6]}…{self.value[-3:]}'
 
     def __lt__(self, other: 'AddressType') -> bool:  # type: ignore
-        if is_pkh(self.value) and is_kt(other.value):
+        """
+        Addresses are ordered by kind first: implicit accounts < originated contracts < smart rollups
+        """
+        kinds = {
+            'tz1': 0,
+            'tz2': 0,
+            'tz3': 0,
+            'tz4': 0,
+            'KT1': 1,
+            'sr1': 2,
+        }
+        res = kinds[self.value[:3]] - kinds[other.value[:3]]
+        if res < 0:
             return True
-        elif is_kt(self.value) and is_pkh(other.value):
+        elif res > 0:
             return False
         else:
             return self.value < other.value
